@@ -272,6 +272,12 @@ def r4_activation(ctx):
             r.check(sig(e[2][1]) == CH, "init/covhash", "keyed by the entry's covenant hash", "keyed by %s" % sig(e[2][1]), a.where(bi))
             l = q.lin(e[2][2], lambda x: "count" if sig(x) == "CoinMapping::coin_count($1.coins, %s)" % CH else None)
             r.check(l == q.Lin({"count": 1}, 1), "init/value", "count + 1", "new count = %r" % l, a.where(bi))
+            # the running count must be read from the mapping being updated, not from a snapshot taken before the loop
+            for cbi, ct in q.calls_to(a, "coin_count"):
+                if cbi in blocks:
+                    root = q.raw_root(a, ct["args"][0])
+                    r.check(root[0] != "clone", "init/live-count", "the running count is read from the live mapping",
+                            "the running count is read from a copy of the coin mapping made at %s: every entry then sees count 0 and a covenant with several coins ends with count 1" % (root[2] if root[0] == "clone" else "?"), a.where(cbi))
             entry = q.loop_entry(a, h, blocks)
             wo = set()
             st = [entry]
